@@ -226,6 +226,143 @@ func c08ChainFork(s *c08State, mk func() ast.Block) {
 	c.Sample(map[string]any{"kind": "chain-and-fork history", "ops": s.ops, "live_tokens": len(f.Tokens), "depth": depth, "forks": forks})
 }
 
+func cloneBlock(b ast.Block) ast.Block {
+	return ast.Block{Facts: append([]ast.Pred{}, b.Facts...), Rules: append([]ast.Rule{}, b.Rules...), Checks: append([]ast.Check{}, b.Checks...), Context: b.Context}
+}
+
+func mergeBlock(m *ast.Block, acc ast.Block) {
+	m.Facts = append(m.Facts, acc.Facts...)
+	m.Rules = append(m.Rules, acc.Rules...)
+	m.Checks = append(m.Checks, acc.Checks...)
+}
+
+// c08BuilderReuse is the third history template: builders keep being used after Build.
+// (1) a root Builder: fill, Build -> T1, fill more, Build -> T2, ...: every token holds exactly
+// what had been put into the builder when it was built, and filling the builder afterwards
+// changes no token already issued. (2) a block builder on a live token: fill, Build -> B1, fill
+// more, Build -> B2, ...: every built block holds what had been put in when it was built (observed
+// through throw-away appends after every operation), then every block is appended to the parent.
+// A builder may refuse to be built again with an error; it may not panic or hand out other content.
+func c08BuilderReuse(s *c08State, mk func() ast.Block) {
+	c, f, r := s.c, s.f, s.c.R
+	root := f.Tokens[0]
+	bld := biscuit.NewBuilder(root.T.Priv, biscuit.WithRNG(f.rng))
+	var m ast.Block
+	for k, n := 0, 2+r.Intn(2); k < n; k++ {
+		content := mk()
+		if k > 0 {
+			content = s.freshContent(100 + k)
+			if r.Intn(4) == 0 {
+				content = ast.Block{}
+			}
+		}
+		var acc ast.Block
+		var err error
+		if pi := lib.Try(func() { acc, err = lib.FillAuthority(bld, content) }); pi != nil {
+			c.Violate("add-panic/"+pi.Site, pi.Msg, s.wit(nil))
+			return
+		}
+		if err != nil && !errors.Is(err, biscuit.ErrDuplicateFact) {
+			c.Violate("add-refused", err.Error(), s.wit(nil))
+		}
+		mergeBlock(&m, acc)
+		op := fmt.Sprintf("add(root builder, %s)", content.Key())
+		s.log(op)
+		s.reobserve(op)
+		var b *biscuit.Biscuit
+		if pi := lib.Try(func() { b, err = bld.Build() }); pi != nil {
+			c.Violate("build-panic/"+pi.Site, fmt.Sprintf("Build number %d on one root builder: %s", k+1, pi.Msg), s.wit(nil))
+			return
+		}
+		if err != nil {
+			c.Count("root_builder_rebuild_refused", 1)
+			s.log(fmt.Sprintf("build number %d on the root builder refused: %v", k+1, err))
+			break
+		}
+		l := &Live{T: &lib.Token{B: b, Blocks: []ast.Block{cloneBlock(m)}, Pub: root.T.Pub, Priv: root.T.Priv}, Origin: "build"}
+		f.Tokens = append(f.Tokens, l)
+		op = fmt.Sprintf("build number %d on the root builder -> #%d", k+1, len(f.Tokens)-1)
+		s.log(op)
+		s.register(l)
+		s.reobserve("after " + op)
+		c.Count("root_builder_builds", 1)
+	}
+	// block builder re-used; the parent has custom symbols half of the time
+	ti := 0
+	if r.Intn(2) == 0 {
+		if _, err := f.Append(0, mk()); err == nil {
+			ti = len(f.Tokens) - 1
+			s.log(fmt.Sprintf("append(#0) -> #%d", ti))
+			s.register(f.Tokens[ti])
+		}
+	}
+	var bb biscuit.BlockBuilder
+	if pi := lib.Try(func() { bb = f.Tokens[ti].T.B.CreateBlock() }); pi != nil {
+		c.Violate("createblock-panic/"+pi.Site, pi.Msg, s.wit(nil))
+		return
+	}
+	var bm ast.Block
+	built := []*c08Builder{}
+	for k, n := 0, 2+r.Intn(2); k < n; k++ {
+		content := s.freshContent(200 + k)
+		if k > 0 && r.Intn(4) == 0 {
+			content = ast.Block{}
+		}
+		var acc ast.Block
+		var err error
+		if pi := lib.Try(func() { acc, err = lib.FillBlock(bb, content) }); pi != nil {
+			c.Violate("add-panic/"+pi.Site, pi.Msg, s.wit(nil))
+			return
+		}
+		if err != nil && !errors.Is(err, biscuit.ErrDuplicateFact) {
+			c.Violate("add-refused", err.Error(), s.wit(nil))
+		}
+		mergeBlock(&bm, acc)
+		op := fmt.Sprintf("add(block builder on #%d, %s)", ti, content.Key())
+		s.log(op)
+		s.reobserve(op)
+		var blk *biscuit.Block
+		if pi := lib.Try(func() { blk = bb.Build() }); pi != nil {
+			c.Violate("buildblock-panic/"+pi.Site, fmt.Sprintf("Build number %d on one block builder: %s", k+1, pi.Msg), s.wit(nil))
+			return
+		}
+		nb := &c08Builder{parent: ti, model: cloneBlock(bm), built: blk, id: len(s.builders)}
+		s.builders = append(s.builders, nb)
+		built = append(built, nb)
+		op = fmt.Sprintf("build-block number %d on the block builder -> built block %d", k+1, nb.id)
+		s.log(op)
+		s.reobserve(op)
+		c.Count("block_builder_builds", 1)
+	}
+	for _, nb := range built {
+		if nb.appended {
+			continue
+		}
+		p := f.Tokens[ti]
+		var tb *biscuit.Biscuit
+		var err error
+		if pi := lib.Try(func() { tb, err = p.T.B.Append(f.rng, nb.built) }); pi != nil {
+			c.Violate("append-panic/"+pi.Site, pi.Msg, s.wit(nil))
+			return
+		}
+		nb.appended = true
+		if err != nil {
+			c.Violate("append-refused", fmt.Sprintf("appending built block %d to its own parent failed: %v", nb.id, err), s.wit(nil))
+			continue
+		}
+		l := &Live{T: &lib.Token{B: tb, Blocks: append(append([]ast.Block{}, p.T.Blocks...), nb.model), Pub: p.T.Pub, Priv: p.T.Priv}, Origin: "append"}
+		f.Tokens = append(f.Tokens, l)
+		op := fmt.Sprintf("append(#%d, built block %d) -> #%d", ti, nb.id, len(f.Tokens)-1)
+		s.log(op)
+		s.register(l)
+		s.reobserve("after " + op)
+	}
+	c.Count("builder_reuse_histories", 1)
+	c.Count("tokens_live", len(f.Tokens))
+	c.NT("reuse/" + core.JSON(s.ops))
+	c.Sample(map[string]any{"kind": "builder re-use history", "ops": s.ops, "live_tokens": len(f.Tokens)})
+}
+
 func c08Run(c *core.C) {
 	r := c.R
 	f := newFamily(r, c.Seed, fmt.Sprintf("c08-%d", c.Idx), 2)
@@ -243,6 +380,10 @@ func c08Run(c *core.C) {
 	s.register(root)
 	if c.Idx%2 == 1 {
 		c08ChainFork(s, mk)
+		return
+	}
+	if c.Idx%4 == 2 {
+		c08BuilderReuse(s, mk)
 		return
 	}
 	nOps := 20 + r.Intn(25)
@@ -438,9 +579,9 @@ func init() {
 	core.Register(&core.Prop{
 		ID:    "C08",
 		Level: "exploration",
-		Rule: "two history templates alternate. Odd cases: chain-and-fork - a chain of attenuations of depth 2-9 from one root (tips occasionally re-loaded), with 2-3 siblings (appends with fresh symbols, sometimes a seal) forked from the same tip at several depths, so that parents whose internal slices have spare capacity (3, 5, 6, 7, 9 blocks) are forked. Even cases: one seeded history of 14-45 operations over a growing family (<=10 live tokens) drawn from {create-block, add-to-builder, build-block, append, seal, serialize+unmarshal, get-block-id with unknown symbols, authorize+print}, biased to the dangerous shape (several builders open on one parent at once, interleaved adds that intern different new symbols, building in the opposite order to creation, siblings appended from one parent). After EVERY operation EVERY live token is re-observed (String, Code, Serialize, Unmarshal(Serialize).String, RevocationIds, key id, panel behaviour) and compared with its creation snapshot; every new token is decoded by R3 and compared with what its own caller put in; every built-but-unappended block is observed through a throw-away append. " +
+		Rule: "three history templates. Cases = 2 mod 4: builder re-use - a root Builder is filled, built, filled further (fresh symbols) and built again 2-3 times, and a block builder on a live token (with and without custom symbols) likewise; every token / block must hold exactly what had been put into its builder at the time of its Build, nothing added later may reach a token or block already built, and Build may refuse with an error but not panic. Odd cases: chain-and-fork - a chain of attenuations of depth 2-9 from one root (tips occasionally re-loaded), with 2-3 siblings (appends with fresh symbols, sometimes a seal) forked from the same tip at several depths, so that parents whose internal slices have spare capacity (3, 5, 6, 7, 9 blocks) are forked. Cases = 0 mod 4: one seeded history of 14-45 operations over a growing family (<=10 live tokens) drawn from {create-block, add-to-builder, build-block, append, seal, serialize+unmarshal, get-block-id with unknown symbols, authorize+print}, biased to the dangerous shape (several builders open on one parent at once, interleaved adds that intern different new symbols, building in the opposite order to creation, siblings appended from one parent). After EVERY operation EVERY live token is re-observed (String, Code, Serialize, Unmarshal(Serialize).String, RevocationIds, key id, panel behaviour) and compared with its creation snapshot; every new token is decoded by R3 and compared with what its own caller put in; every built-but-unappended block is observed through a throw-away append. " +
 			"Non-trivial = histories with >=2 builders on one parent that each interned content before either was observed (distinct by operation list).",
-		Assumptions: []string{"a block builder is built once and its block is appended only to the token it was created from", "re-using a root Builder after Build is not an operation on a token (not claimed)"},
+		Assumptions: []string{"a built block is appended only to the token its builder was created from"},
 		NumCases: func(tier string) int {
 			if tier == "thorough" {
 				return 50000
@@ -457,6 +598,9 @@ func init() {
 				if a.Cnt[fmt.Sprintf("chain_fork_depth_%d", d)] == 0 {
 					u = append(u, fmt.Sprintf("no chain-and-fork history of depth %d", d))
 				}
+			}
+			if a.Cnt["builder_reuse_histories"] < 100 || a.Cnt["root_builder_builds"] < 200 || a.Cnt["block_builder_builds"] < 200 {
+				u = append(u, fmt.Sprintf("builder re-use histories %d (<100), root builds %d, block builds %d (<200)", a.Cnt["builder_reuse_histories"], a.Cnt["root_builder_builds"], a.Cnt["block_builder_builds"]))
 			}
 			if a.Cnt["histories_with_sibling_builders"] < 60 {
 				u = append(u, fmt.Sprintf("histories with sibling builders %d < 60", a.Cnt["histories_with_sibling_builders"]))
